@@ -121,7 +121,7 @@ func c11Case(c *Ctx, tr interface{}, tag string) {
 
 func init() {
 	campaigns["C11"] = func(c *Ctx) {
-		c.Rule = "values of the 13 pointer types offering Clean() and item lists of them, generated type-directed from the struct definitions with bto/bcc planted with probability 0.55 on each generated object at every depth (so that objects without private recipients embed objects with them) (<=3 quick, <=4 thorough), embedded objects by pointer and by value, links, lists with nil members, on and off the walked properties; first chains 40 and 70 levels deep along a walked property (single position, activity object, list) with private recipients on every level, then a covering set (each type x each walked property holding an object with bto+bcc, each shape: single pointer, single value, list), then random. Distinct by request hash; every case is non-trivial (it carries private recipients)."
+		c.Rule = "values of the 13 pointer types offering Clean() and item lists of them, generated type-directed from the struct definitions with bto/bcc planted with probability 0.55 on each generated object at every depth (so that objects without private recipients embed objects with them) (<=3 quick, <=4 thorough), embedded objects by pointer and by value, links, lists with nil members, on and off the walked properties; first chains 40 and 70 levels deep along a walked property (single position, activity object, list) with private recipients on every level, then a covering set (each type x each walked property holding an object with bto+bcc, each shape: single pointer, single value, list), then coincidences (each type x each ordered pair of a walked property embedding an object with private recipients and another item-valued property naming the same object by IRI or as an id-only object; quick: walked x walked, thorough: walked x all), then random. Distinct by request hash; every case is non-trivial (it carries private recipients)."
 		// depth: chains of 40 and 70 embedded objects along one walked property (an attachment of an attachment
 		// of …, an activity's object of an object of …, lists counting as a level), private recipients on every
 		// level — "recursively, to any depth"; several of them first, so that whatever a deep value leaves behind
@@ -178,6 +178,50 @@ func init() {
 						f[fld] = priv(g, false)
 					}
 					c11Case(c, T{"t": typ, "ptr": true, "f": f}, "cover/"+shape)
+				}
+			}
+		}
+		// coincidences: one walked property embeds an object with private recipients, another property of the
+		// same value names that very object — by its IRI, or as an id-only object — so that a walk which skips
+		// what "was already seen" (compared by id) is met
+		walked := map[string]bool{"Audience": true, "Attachment": true, "Icon": true, "Image": true, "Context": true, "Generator": true,
+			"AttributedTo": true, "Preview": true, "Tag": true, "Object": true, "Actor": true, "Target": true}
+		for _, typ := range objectGoTypes {
+			var itemFlds []string
+			for _, fld := range fieldNames(typ) {
+				if k := fieldKind(typ, fld); k == "item" || k == "items" {
+					itemFlds = append(itemFlds, fld)
+				}
+			}
+			n := 0
+			for _, f1 := range itemFlds {
+				if !walked[f1] {
+					continue
+				}
+				for _, f2 := range itemFlds {
+					if f1 == f2 || (!walked[f2] && c.N(0, 1) == 0) {
+						continue
+					}
+					n++
+					pv := priv(g, true)
+					id := pv["f"].(T)["ID"].(T)["s"].(string)
+					var other interface{} = T{"iri": id}
+					if n%3 == 0 {
+						other = T{"t": "Object", "ptr": true, "f": T{"ID": T{"s": id}}}
+					}
+					f := T{"ID": T{"s": g.nextID(typ)}, "Type": T{"s": vocab[typ][0]},
+						"Bto": T{"list": []interface{}{T{"iri": g.nextID("x")}}}}
+					if fieldKind(typ, f1) == "items" {
+						f[f1] = T{"list": []interface{}{pv}}
+					} else {
+						f[f1] = pv
+					}
+					if fieldKind(typ, f2) == "items" {
+						f[f2] = T{"list": []interface{}{other}}
+					} else {
+						f[f2] = other
+					}
+					c11Case(c, T{"t": typ, "ptr": true, "f": f}, "coincide/"+f1+"~"+f2)
 				}
 			}
 		}
